@@ -1046,6 +1046,197 @@ def oracle_sctl(payload):
     return None
 
 
+# ---- co-simulation of the virtual-time LTSs (Conc/Timed.lean; harness/conc/src/timedlts.rs) --------------------
+
+def _tl_entry(e):
+    kind, g, v, h = e
+    if kind == "n":
+        return "%d:%d:%d" % (g, v, h) if h else "%d:%d" % (g, v)
+    return "%s:%d" % (kind, g)
+
+
+def _tl_timeout(d, es):
+    """timeline of `source.timeout(d)` without an unsubscriber, under the no-tie reading: (instants at which the source
+    thread acts, instants at which a timer thread wakes, a `next` arrives exactly when a timer fires)"""
+    t, armed = 0, False
+    src, tim, tie = [], [], False
+    for (kind, g, v, h) in es:
+        arr = t + g
+        if armed:
+            tim.append(t + d)
+            if t + d < arr:
+                return src, tim, tie
+            if t + d == arr and kind == "n":
+                tie = True
+        src.append(arr)
+        if kind != "n":
+            return src, tim, tie
+        t = arr + h
+        src.append(t)
+        armed = True
+    if armed:
+        tim.append(t + d)
+    return src, tim, tie
+
+
+def _tl_unsub_ok(u, groups):
+    """the unsubscriber may tie with ONE other thread, which acts once at that instant (see DESIGN 10.2: the LTS's
+    `finalize` is one step, the code's is not; two observers of its parts in the same instant cannot be linearised)"""
+    hit = [g for g in groups if u in g]
+    return len(hit) <= 1 and all(g.count(u) == 1 for g in hit)
+
+
+def scen_timedlts(prefix, kinds=("timeout", "delay", "interval", "timer", "debounce", "sample", "rounds")):
+    """scenarios for the co-simulation of the virtual-time LTSs; `kinds` = the models wanted (C15 takes those with
+    threads of the library, whose exit instants are compared)"""
+    def gen(rng, n):
+        out = []
+        tried = [0]
+        def add(tag, body):
+            tried[0] += 1
+            if body.split()[0] in kinds:
+                out.append("(conc %s-lts-%d-%s (timedlts %s))" % (prefix, tried[0], tag, body))
+        # one worked example per model and per kind of tie
+        add("to", "timeout (d 20) (script 5:1 15:2:10 c:1)")
+        add("to-slow", "timeout (d 20) (script 5:1 15:2:25 5:3 c:1)")
+        add("to-uarr", "timeout (d 20) (script 5:1 15:2:10 c:1) (unsub 20)")       # unsubscribe at the instant an item arrives
+        add("to-ufire", "timeout (d 20) (script 5:1 30:2) (unsub 25)")             # ... the timer fires
+        add("to-uret", "timeout (d 20) (script 5:1 10:2:7 c:3) (unsub 22)")        # ... the slow consumer returns
+        add("to-tfire", "timeout (d 20) (script 5:1 c:20)")                        # complete arrives when the timer fires
+        add("to-uterm", "timeout (d 20) (script 5:1 c:10) (unsub 15)")
+        add("to-never", "timeout (d 20) (script 5:1 5:2)")
+        add("de-udel", "delay (d 10) (script 5:1:3 2:2 e:2) (unsub 15)")
+        add("de-uarr", "delay (d 10) (script 5:1:3 2:2 e:2) (unsub 5)")
+        add("iv-take", "interval (d 10) (take 3)")
+        add("iv-utick", "interval (d 10) (unsub 20)")
+        add("iv-take-u", "interval (d 10) (take 3) (unsub 20)")
+        add("iv-take-uc", "interval (d 10) (take 2) (unsub 20)")                    # unsubscribe on the tick on which `take` completes
+        add("tm-u", "timer (d 10) (unsub 10)")
+        add("tm-early", "timer (d 10) (unsub 4)")
+        add("db", "debounce (d 10) (script 3:1 3:2 25:3 3:4 c:30)")
+        add("db-u", "debounce (d 10) (script 3:1 7:2 25:3) (unsub 20)")
+        add("sa", "sample (script 3:1 3:2 25:3 3:4 c:30) (trigger 10:0 10:0 10:0 10:0 10:0 10:0 10:0)")
+        add("sa-u", "sample (script 3:1 3:2 25:3 3:4) (trigger 10:0 10:0 10:0 10:0 c:5) (unsub 30)")
+        add("ro", "rounds (d 10) (rounds 25:5 10:12)")
+        add("ro-tie", "rounds (d 10) (rounds 20:10 10:10 5:1)")                     # unsubscribe at the instant the worker wakes
+        fixed, tries = len(out), 0
+        while len(out) < fixed + n and tries < 40 * (n + 1):
+            tries += 1
+            r = rng.random()
+            if r < 0.45:
+                d = rng.choice([10, 20])
+                es = [("n", rng.choice([0, 3, 5, 8, 12, d - 1, d, d + 1, d + 5]), j + 1, rng.choice([0, 0, 0, 4, 9, d + 3]))
+                      for j in range(rng.randint(1, 4))]
+                q = rng.random()
+                if q < 0.6:
+                    es.append(("c" if q < 0.45 else "e", rng.choice([1, 3, d, d + 2]), 0, 0))
+                src, tim, tie = _tl_timeout(d, es)
+                if tie:
+                    continue        # a `next` arriving exactly when a timer fires: DESIGN 10.2 (call / emit are atomic in the LTS)
+                pts = sorted(set(src + tim))
+                u, q = None, rng.random()
+                if q < 0.45:
+                    u = rng.choice(pts)
+                elif q < 0.7:
+                    u = rng.randint(1, max(pts) + 3)
+                if u is not None and (not _tl_unsub_ok(u, [src, tim]) or any(e[1] == 0 for e in es[1:])):
+                    continue        # (an item refused at the unsubscribe instant takes no handling time: a wait of 0 after it
+                                    #  makes the source act twice in that instant)
+                add("to-r" + ("u" if u is not None else ""), "timeout (d %d) (script %s)%s" %
+                    (d, " ".join(_tl_entry(e) for e in es), " (unsub %d)" % u if u is not None else ""))
+            elif r < 0.6:
+                d = rng.choice([5, 10])
+                es = [("n", rng.choice([0, 3, 5, 8, 12]), j + 1, rng.choice([0, 0, 4, 9])) for j in range(rng.randint(1, 3))]
+                es.append((rng.choice(["c", "c", "e"]), rng.choice([1, 2, 7]), 0, 0))
+                t, pts = 0, []
+                for (kind, g, v, h) in es:
+                    t += g
+                    pts.append(t)
+                    if kind == "n":
+                        pts += [t + d, t + d + h]
+                        t += d + h
+                u, q = None, rng.random()
+                if q < 0.5:
+                    u = rng.choice(pts)
+                elif q < 0.7:
+                    u = rng.randint(1, max(pts) + 2)
+                if u is not None and (pts.count(u) > 1 or any(e[1] == 0 for e in es[1:])):
+                    continue
+                add("de-r" + ("u" if u is not None else ""), "delay (d %d) (script %s)%s" %
+                    (d, " ".join(_tl_entry(e) for e in es), " (unsub %d)" % u if u is not None else ""))
+            elif r < 0.72:
+                d = rng.choice([5, 10])
+                take = rng.choice([None, 1, 2, 3])
+                u = rng.choice([d, 2 * d, 3 * d, rng.randint(1, 3 * d + 2)]) if (take is None or rng.random() < 0.6) else None
+                add("iv-r", "interval (d %d)%s%s" % (d, " (take %d)" % take if take is not None else "", " (unsub %d)" % u if u is not None else ""))
+            elif r < 0.77:
+                d = rng.choice([5, 10])
+                u = rng.choice([None, d, rng.randint(1, d + 3)])
+                add("tm-r", "timer (d %d)%s" % (d, " (unsub %d)" % u if u is not None else ""))
+            elif r < 0.85:
+                d = rng.choice([5, 10])
+                rs = [(rng.choice([d, 2 * d, rng.randint(1, 3 * d)]), rng.choice([0, 1, d, rng.randint(1, 2 * d)])) for _ in range(rng.randint(1, 4))]
+                add("ro-r", "rounds (d %d) (rounds %s)" % (d, " ".join("%d:%d" % x for x in rs)))
+            elif r < 0.93:
+                d = 10
+                es = [("n", rng.choice([2, 3, 7, 10, 13, 25]), j + 1, 0) for j in range(rng.randint(1, 4))]
+                term = rng.random() < 0.6
+                if term:
+                    es.append((rng.choice(["c", "c", "e"]), rng.choice([3, 10, 24]), 0, 0))
+                src, t = [], 0
+                for e in es:
+                    t += e[1]
+                    src.append(t)
+                end = src[-1] if term else None
+                u = None
+                if not term or rng.random() < 0.4:
+                    u = rng.choice(src + [10, 20, 30, rng.randint(1, 45)])
+                horizon = min(x for x in (end, u) if x is not None)
+                wk = list(range(d, horizon + d + 1, d))          # the worker wakes every d while subscribed
+                if u is not None and not _tl_unsub_ok(u, [src, wk]):
+                    continue
+                if end is not None and end in wk and u == end:
+                    continue
+                add("db-r", "debounce (d %d) (script %s)%s" % (d, " ".join(_tl_entry(e) for e in es), " (unsub %d)" % u if u is not None else ""))
+            else:
+                es = [("n", rng.choice([2, 3, 7, 10, 13]), j + 1, 0) for j in range(rng.randint(1, 4))]
+                if rng.random() < 0.6:
+                    es.append((rng.choice(["c", "e"]), rng.choice([3, 10, 24]), 0, 0))
+                tg = [("n", rng.choice([5, 10, 10, 15]), 0, 0) for _ in range(rng.randint(1, 5))]
+                if rng.random() < 0.4:
+                    tg.append((rng.choice(["c", "e"]), 5, 0, 0))
+                def inst(l):
+                    t, o = 0, []
+                    for e in l:
+                        t += e[1]
+                        o.append(t)
+                    return o
+                src, trg = inst(es), inst(tg)
+                u = rng.choice([None] + src + trg + [rng.randint(1, 40)]) if es[-1][0] != "n" else rng.choice(src + trg + [rng.randint(1, 40)])
+                if u is not None and not _tl_unsub_ok(u, [src, trg]):
+                    continue
+                add("sa-r", "sample (script %s) (trigger %s)%s" % (" ".join(_tl_entry(e) for e in es), " ".join(_tl_entry(e) for e in tg),
+                                                                     " (unsub %d)" % u if u is not None else ""))
+        return list(dict.fromkeys(out))
+    return gen
+
+
+def oracle_timedlts(payload):
+    """independent of the LTS (C15): at the end of the run (virtual time 5000, every timer period is <= 30) every thread
+    the library started has exited; the renderer found the locks it names where their names say"""
+    parts = payload.split(" ; ")
+    if len(parts) != 3:
+        return "malformed record"
+    m = re.search(r"exits=(\S*) table=(\S*)", parts[1])
+    if not m:
+        return "malformed record"
+    if m.group(2) != "ok":
+        return "lock table of the renderer does not fit the recorded creation sites"
+    if "-" in m.group(1).split(",") and m.group(1) != "-":
+        return "a library thread is still alive at the end of the run: exits=%s" % m.group(1)
+    return None
+
+
 CONC = {
     "C08": dict(model="queue", scen=scen_queue, oracle=oracle_queue, corr="Conc.Queue (lean/RxVerif/Conc/Queue.lean) vs src/schedulers/async_function_queue.rs, new_thread_scheduler.rs"),
     "C19": dict(model="obs", scen=scen_obs, oracle=oracle_obs, corr="Conc.Observer (lean/RxVerif/Conc/Observer.lean) vs src/observer.rs + src/internals/function_wrapper.rs",
@@ -1059,8 +1250,10 @@ CONC = {
     "C11": dict(model=None, scen=scen_merge, oracle=oracle_merge, corr="Conc.Sctl / Conc.TakeAmbZip vs stream_controller.rs, merge/zip/amb/take", info=True,
                 more=[dict(model=m, kind="sctl " + ("merge" if m == "sctl" else m), scen=scen_sctl(m), oracle=oracle_sctl, iters=(2000, 6000)) for m in ("sctl", "take", "amb", "zip")]),
     "C15": dict(model=None, scen=scen_threads, oracle=oracle_threads, corr="Conc.Timed / Conc.Queue vs scheduler-based operators", info=True,
-                more=[dict(model=None, scen=scen_ties, oracle=oracle_threads, info=True, iters=(1500, 12000))]),
-    "C16": dict(model=None, scen=scen_time, oracle=oracle_time, corr="Conc.Timed vs interval/timer/delay/timeout/debounce/sample", info=True),
+                more=[dict(model=None, scen=scen_ties, oracle=oracle_threads, info=True, iters=(1500, 12000)),
+                      dict(model="timed", kind="timedlts", scen=scen_timedlts("C15", ("timeout", "interval", "timer", "debounce", "rounds")), oracle=oracle_timedlts, iters=(2000, 6000))]),
+    "C16": dict(model=None, scen=scen_time, oracle=oracle_time, corr="Conc.Timed vs interval/timer/delay/timeout/debounce/sample", info=True,
+                more=[dict(model="timed", kind="timedlts", scen=scen_timedlts("C16", ("timeout", "delay", "interval", "timer", "debounce", "sample")), oracle=oracle_timedlts, iters=(2000, 6000))]),
 }
 
 
